@@ -535,7 +535,7 @@ func isaObligations(f *Frame, rst *State, ct *Contract, post *Scope) {
 		laneDone = ls
 		if mk, mf := maskDst(e); e.Eff[mk] != nil {
 			op := c.instField(entry, inst, mf)
-			c.wrOperand(spec, op, lane0, ls.full(mk))
+			c.wrOperand(spec, op, lane0, ls.maskAtSkolemBit(mk))
 		}
 	} else {
 		exec := c.ghost(entry, "G_exec")
